@@ -25,26 +25,27 @@ VARIABLES now, msz,
           at,       \* element -> scheduled time
           acc,      \* element -> Add returned a handle
           cclosed,  \* element -> cancel channel closed (Cancel returned)
-          cend,     \* element -> clock value when Cancel returned, -1 = never
+          cbef,     \* element -> Cancel returned strictly before the scheduled time
+          csd,      \* elements whose Cancel had returned before an ignore-timeouts Shutdown was invoked
           precanc,  \* element -> Cancel had returned before the Poll call that popped it took it from the heap
           szdrop,   \* element -> removed by the size bound
-          isSd, ctxDone, flags, sdt, sdpc,
+          isSd, ctxDone, flags, sdpc,
           wpc,      \* worker -> "idle" | "waitcond" | "popped" | "select" | "select2" | "deliver" | "exited"
           wel,      \* worker -> element it holds
           tf,       \* worker -> its timer has fired
           woken,    \* worker -> signalled while in waitCond.Wait()
           ndel,     \* element -> number of deliveries
           bad       \* set of clause names violated by some delivery
-vars == <<now, msz, est, at, acc, cclosed, cend, precanc, szdrop, isSd, ctxDone, flags, sdt, sdpc, wpc, wel, tf, woken, ndel, bad>>
+vars == <<now, msz, est, at, acc, cclosed, cbef, csd, precanc, szdrop, isSd, ctxDone, flags, sdpc, wpc, wel, tf, woken, ndel, bad>>
 
 Heap == {e \in Elems : est[e] = "heap"}
 NoEl == 0
 
 Init == /\ now = 0 /\ msz \in MaxSizes
         /\ est = [e \in Elems |-> "new"] /\ at = [e \in Elems |-> 0] /\ acc = [e \in Elems |-> FALSE]
-        /\ cclosed = [e \in Elems |-> FALSE] /\ cend = [e \in Elems |-> -1] /\ precanc = [e \in Elems |-> FALSE]
+        /\ cclosed = [e \in Elems |-> FALSE] /\ cbef = [e \in Elems |-> FALSE] /\ csd = {} /\ precanc = [e \in Elems |-> FALSE]
         /\ szdrop = [e \in Elems |-> FALSE]
-        /\ isSd = FALSE /\ ctxDone = FALSE /\ flags = {} /\ sdt = -1 /\ sdpc = "none"
+        /\ isSd = FALSE /\ ctxDone = FALSE /\ flags = {} /\ sdpc = "none"
         /\ wpc = [w \in Workers |-> "idle"] /\ wel = [w \in Workers |-> NoEl] /\ tf = [w \in Workers |-> FALSE]
         /\ woken = [w \in Workers |-> FALSE]
         /\ ndel = [e \in Elems |-> 0] /\ bad = {}
@@ -72,15 +73,15 @@ Add(e, t) == /\ est[e] = "new" /\ \A x \in Elems : x < e => est[x] # "new"      
                        /\ UNCHANGED <<acc, szdrop, woken>>
                   ELSE IF isSd THEN est' = [est EXCEPT ![e] = "out"] /\ UNCHANGED <<acc, szdrop, woken>>
                        ELSE Push(e)
-             /\ UNCHANGED <<now, msz, cclosed, cend, precanc, isSd, ctxDone, flags, sdt, sdpc, wpc, wel, tf, ndel, bad>>
+             /\ UNCHANGED <<now, msz, cclosed, cbef, csd, precanc, isSd, ctxDone, flags, sdpc, wpc, wel, tf, ndel, bad>>
 AddPush(e) == /\ est[e] = "chk" /\ UNCHANGED at /\ Push(e)
-              /\ UNCHANGED <<now, msz, cclosed, cend, precanc, isSd, ctxDone, flags, sdt, sdpc, wpc, wel, tf, ndel, bad>>
+              /\ UNCHANGED <<now, msz, cclosed, cbef, csd, precanc, isSd, ctxDone, flags, sdpc, wpc, wel, tf, ndel, bad>>
 
 (* ----------------------------------- Cancel ----------------------------------- *)
-Cancel(e) == /\ acc[e] /\ ~cclosed[e] /\ ndel[e] = 0
+Cancel(e) == /\ acc[e] /\ ~cclosed[e] /\ est[e] \in {"heap", "popped"}
              /\ est' = [est EXCEPT ![e] = IF @ = "heap" /\ Variant # "cancel_keeps_heap" THEN "out" ELSE @]
-             /\ cclosed' = [cclosed EXCEPT ![e] = TRUE] /\ cend' = [cend EXCEPT ![e] = now]
-             /\ UNCHANGED <<now, msz, at, acc, precanc, szdrop, isSd, ctxDone, flags, sdt, sdpc, wpc, wel, tf, woken, ndel, bad>>
+             /\ cclosed' = [cclosed EXCEPT ![e] = TRUE] /\ cbef' = [cbef EXCEPT ![e] = now < at[e]]
+             /\ UNCHANGED <<now, msz, at, acc, csd, precanc, szdrop, isSd, ctxDone, flags, sdpc, wpc, wel, tf, woken, ndel, bad>>
 
 (* ----------------------------------- workers ----------------------------------- *)
 WIdle(w) == /\ wpc[w] = "idle"
@@ -93,15 +94,15 @@ WIdle(w) == /\ wpc[w] = "idle"
                                       /\ precanc' = [precanc EXCEPT ![e] = cclosed[e]]
                                       /\ wpc' = [wpc EXCEPT ![w] = "popped"] /\ tf' = [tf EXCEPT ![w] = FALSE]
                                       /\ UNCHANGED woken
-            /\ UNCHANGED <<now, msz, at, acc, cclosed, cend, szdrop, isSd, ctxDone, flags, sdt, sdpc, ndel, bad>>
+            /\ UNCHANGED <<now, msz, at, acc, cclosed, cbef, csd, szdrop, isSd, ctxDone, flags, sdpc, ndel, bad>>
 WWake(w) == /\ wpc[w] = "waitcond" /\ woken[w] /\ wpc' = [wpc EXCEPT ![w] = "idle"]
-            /\ UNCHANGED <<now, msz, est, at, acc, cclosed, cend, precanc, szdrop, isSd, ctxDone, flags, sdt, sdpc, wel, tf, woken, ndel, bad>>
+            /\ UNCHANGED <<now, msz, est, at, acc, cclosed, cbef, csd, precanc, szdrop, isSd, ctxDone, flags, sdpc, wel, tf, woken, ndel, bad>>
 WTimer(w) == /\ wpc[w] = "popped" /\ wpc' = [wpc EXCEPT ![w] = "select"]       \* time.NewTimer(time.Until(key)); the verif yield point sits here
-             /\ UNCHANGED <<now, msz, est, at, acc, cclosed, cend, precanc, szdrop, isSd, ctxDone, flags, sdt, sdpc, wel, tf, woken, ndel, bad>>
+             /\ UNCHANGED <<now, msz, est, at, acc, cclosed, cbef, csd, precanc, szdrop, isSd, ctxDone, flags, sdpc, wel, tf, woken, ndel, bad>>
 TimerFire(w) == /\ wpc[w] \in {"select", "select2"} /\ ~tf[w]
                 /\ now >= at[wel[w]] - (IF Variant = "early_timer" THEN 1 ELSE 0)
                 /\ tf' = [tf EXCEPT ![w] = TRUE]
-                /\ UNCHANGED <<now, msz, est, at, acc, cclosed, cend, precanc, szdrop, isSd, ctxDone, flags, sdt, sdpc, wpc, wel, woken, ndel, bad>>
+                /\ UNCHANGED <<now, msz, est, at, acc, cclosed, cbef, csd, precanc, szdrop, isSd, ctxDone, flags, sdpc, wpc, wel, woken, ndel, bad>>
 Drop(w) == est' = [est EXCEPT ![wel[w]] = "out"] /\ wel' = [wel EXCEPT ![w] = NoEl] /\ tf' = [tf EXCEPT ![w] = FALSE]
 (* about to return the value: the fixed code looks at the cancel channel once more *)
 ToDeliver(w) == IF Variant # "select_race" /\ cclosed[wel[w]]
@@ -114,38 +115,40 @@ WSelect(w) == /\ wpc[w] = "select"
                        ELSE wpc' = [wpc EXCEPT ![w] = "select2"] /\ UNCHANGED <<est, wel, tf>>
                  \/ /\ cclosed[wel[w]] /\ wpc' = [wpc EXCEPT ![w] = "idle"] /\ Drop(w)
                  \/ /\ tf[w] /\ ToDeliver(w)
-              /\ UNCHANGED <<now, msz, at, acc, cclosed, cend, precanc, szdrop, isSd, ctxDone, flags, sdt, sdpc, woken, ndel, bad>>
+              /\ UNCHANGED <<now, msz, at, acc, cclosed, cbef, csd, precanc, szdrop, isSd, ctxDone, flags, sdpc, woken, ndel, bad>>
 WSelect2(w) == /\ wpc[w] = "select2"
                /\ \/ /\ cclosed[wel[w]] /\ wpc' = [wpc EXCEPT ![w] = "idle"] /\ Drop(w)
                   \/ /\ tf[w] /\ ToDeliver(w)
-               /\ UNCHANGED <<now, msz, at, acc, cclosed, cend, precanc, szdrop, isSd, ctxDone, flags, sdt, sdpc, woken, ndel, bad>>
-(* the earliest moment an API-level delivery of e may be placed: its scheduled time, or the ignore-timeouts Shutdown *)
-LB(e) == IF isSd /\ "ignore" \in flags /\ sdt < at[e] THEN sdt ELSE at[e]
+               /\ UNCHANGED <<now, msz, at, acc, cclosed, cbef, csd, precanc, szdrop, isSd, ctxDone, flags, sdpc, woken, ndel, bad>>
+(* a delivery of e can be placed no earlier than its scheduled time - or than the invocation of an ignore-timeouts Shutdown: *)
+(* a Cancel that returned before that moment must have prevented it                                                         *)
+CancelledBefore(e) == cbef[e] /\ (~(isSd /\ "ignore" \in flags) \/ e \in csd)
 WDeliver(w) == /\ wpc[w] = "deliver"
                /\ LET e == wel[w] IN
                   /\ ndel' = [ndel EXCEPT ![e] = @ + 1] /\ est' = [est EXCEPT ![e] = "out"]
                   /\ bad' = bad \cup (IF now < at[e] /\ ~(isSd /\ "ignore" \in flags) THEN {"early"} ELSE {})
-                                \cup (IF precanc[e] \/ (cend[e] # -1 /\ cend[e] < LB(e)) THEN {"cancelled"} ELSE {})
+                                \cup (IF precanc[e] \/ CancelledBefore(e) THEN {"cancelled"} ELSE {})
                /\ wpc' = [wpc EXCEPT ![w] = "idle"] /\ wel' = [wel EXCEPT ![w] = NoEl] /\ tf' = [tf EXCEPT ![w] = FALSE]
-               /\ UNCHANGED <<now, msz, at, acc, cclosed, cend, precanc, szdrop, isSd, ctxDone, flags, sdt, sdpc, woken>>
+               /\ UNCHANGED <<now, msz, at, acc, cclosed, cbef, csd, precanc, szdrop, isSd, ctxDone, flags, sdpc, woken>>
 
 (* ------------------------------ Executor.Shutdown ------------------------------ *)
-SdFlag(fl) == /\ sdpc = "none" /\ isSd' = TRUE /\ flags' = fl /\ sdt' = (IF "ignore" \in fl THEN now ELSE -1) /\ sdpc' = "ctx"
-              /\ UNCHANGED <<now, msz, est, at, acc, cclosed, cend, precanc, szdrop, ctxDone, wpc, wel, tf, woken, ndel, bad>>
+SdFlag(fl) == /\ sdpc = "none" /\ isSd' = TRUE /\ flags' = fl /\ sdpc' = "ctx"
+              /\ csd' = (IF "ignore" \in fl THEN {e \in Elems : cclosed[e]} ELSE {})
+              /\ UNCHANGED <<now, msz, est, at, acc, cclosed, cbef, precanc, szdrop, ctxDone, wpc, wel, tf, woken, ndel, bad>>
 SdCtx == /\ sdpc = "ctx" /\ ctxDone' = TRUE /\ sdpc' = "heap"
-         /\ UNCHANGED <<now, msz, est, at, acc, cclosed, cend, precanc, szdrop, isSd, flags, sdt, wpc, wel, tf, woken, ndel, bad>>
+         /\ UNCHANGED <<now, msz, est, at, acc, cclosed, cbef, csd, precanc, szdrop, isSd, flags, wpc, wel, tf, woken, ndel, bad>>
 SdHeap == /\ sdpc = "heap" /\ sdpc' = "wait"
           /\ woken' = IF Heap = {} \/ Variant # "broadcast_if_empty" THEN [w \in Workers |-> TRUE] ELSE woken
           /\ est' = IF "cancel" \in flags \/ Variant = "shutdown_drains" THEN [e \in Elems |-> IF est[e] = "heap" THEN "out" ELSE est[e]] ELSE est
-          /\ UNCHANGED <<now, msz, at, acc, cclosed, cend, precanc, szdrop, isSd, ctxDone, flags, sdt, wpc, wel, tf, ndel, bad>>
+          /\ UNCHANGED <<now, msz, at, acc, cclosed, cbef, csd, precanc, szdrop, isSd, ctxDone, flags, wpc, wel, tf, ndel, bad>>
 SdWait == /\ sdpc = "wait" /\ \A w \in Workers : wpc[w] = "exited" /\ sdpc' = "done"
-          /\ UNCHANGED <<now, msz, est, at, acc, cclosed, cend, precanc, szdrop, isSd, ctxDone, flags, sdt, wpc, wel, tf, woken, ndel, bad>>
+          /\ UNCHANGED <<now, msz, est, at, acc, cclosed, cbef, csd, precanc, szdrop, isSd, ctxDone, flags, wpc, wel, tf, woken, ndel, bad>>
 
 Tick == /\ now < MaxT /\ now' = now + 1
-        /\ UNCHANGED <<msz, est, at, acc, cclosed, cend, precanc, szdrop, isSd, ctxDone, flags, sdt, sdpc, wpc, wel, tf, woken, ndel, bad>>
+        /\ UNCHANGED <<msz, est, at, acc, cclosed, cbef, csd, precanc, szdrop, isSd, ctxDone, flags, sdpc, wpc, wel, tf, woken, ndel, bad>>
 
 WorkerStep(w) == WIdle(w) \/ WWake(w) \/ WTimer(w) \/ TimerFire(w) \/ WSelect(w) \/ WSelect2(w) \/ WDeliver(w)
-Next == \/ \E e \in Elems : (\E t \in 0..MaxT : Add(e, t)) \/ AddPush(e) \/ Cancel(e)
+Next == \/ \E e \in Elems : (\E t \in now..MaxT : Add(e, t)) \/ AddPush(e) \/ Cancel(e)
         \/ \E w \in Workers : WorkerStep(w)
         \/ \E fl \in SUBSET {"cancel", "ignore"} : SdFlag(fl)
         \/ SdCtx \/ SdHeap \/ SdWait \/ Tick
@@ -168,4 +171,12 @@ Excused(e) == cclosed[e] \/ szdrop[e] \/ (isSd /\ "cancel" \in flags)
 EventuallyDelivered == \A e \in Elems : acc[e] ~> (ndel[e] >= 1 \/ Excused(e))
 (* Executor.Shutdown returns (all workers leave) *)
 ShutdownReturns == (sdpc = "ctx") ~> (sdpc = "done")
+(* The model has no cycles (time and every element only move forward), so under the fairness above a behaviour ends in a   *)
+(* state where no fair action is enabled; the two liveness properties are equivalent to these invariants (quick tier):    *)
+FairNext == \/ \E w \in Workers : WorkerStep(w)
+            \/ \E e \in Elems : AddPush(e)
+            \/ SdCtx \/ SdHeap \/ SdWait \/ Tick
+Quiet == ~ENABLED FairNext
+QuietDelivered == Quiet => \A e \in Elems : acc[e] => (ndel[e] >= 1 \/ Excused(e))
+QuietShutdown == Quiet => sdpc \in {"none", "done"}
 =============================================================================
